@@ -31,7 +31,11 @@ RULE = ("each run draws 0-4 Split branches of the four kinds (Source, fill/compu
         "distinct abstracted event-kind sequences."
         " Since the seeded rounds also: post-elements that yield None, a branch element raising a"
         " Lena exception that is not a stop (must propagate), nested mixed Splits as branches, the"
-        " same branch object listed twice, Zip with field names, the same Split run twice.")
+        " same branch object listed twice, Zip with field names, the same Split run twice."
+        " Also: Source branches of a user's subclass of Source; the order in which Zip and"
+        " Split.fill turn to their branches and whether the flow is read on when no branch is"
+        " active are not fixed by the statement (outputs and per-branch histories are compared"
+        " then).")
 REAL = ["lena.core.Split", "lena.flow.Zip", "lena.core.Sequence", "lena.core.Source",
         "lena.core.FillComputeSeq", "lena.core.FillRequestSeq", "lena.core.FillSeq",
         "lena.core.FillInto/Run adapters", "lena.flow.Slice", "lena.flow.Filter", "copy.deepcopy"]
@@ -98,6 +102,8 @@ def gen_branch(tape, name, kinds, allow_stop=True):
     if b.kind == "source":
         b.m = tape.draw(3, "src-m")
         b.npost = tape.draw(2, "src-post")
+        # an instance of a user's subclass of Source is a Source
+        b.subclass = tape.chance(1, 3, "source-subclass")
     elif b.kind in ("fc", "fr"):
         b.pre = gen_pre(tape, allow_stop)
         b.npost = tape.draw(3, "npost")
@@ -203,12 +209,18 @@ def post_calls(b, log):
 # ---------------------------------------------------------------------------
 # real branches
 
+class SourceSub(lena.core.Source):
+    """a user's subclass of Source"""
+
+
 def real_branch(b, log):
     if b.kind == "nested":
         return lena.core.Split([real_branch(x, log) for x in b.sub], bufsize=b.inner)
     if b.kind == "source":
         els = [ProbeSrc(log, b.name + ".src", b.m)]
         els += post_calls(b, log)
+        if getattr(b, "subclass", False):
+            return SourceSub(*els)
         return lena.core.Source(*els)
     if b.kind in ("fc", "fr"):
         els = []
